@@ -7,6 +7,11 @@ from replay import charts
 
 
 def scenarios(seed, tier, failed):
+    # catalogue first: a handler on the start path that answers the parent probe with None (start state, its parent)
+    for ns in (1, 0):
+        yield {'kind': 'chart', 'parent': [-1, 0, 1], 'init': [None, None, None], 'react': {'0': {}, '1': {}, '2': {}},
+               'start': 2, 'events': [], 'host': 'HsmEventProcessor', 'spy': False, 'exit_handled': [True] * 3,
+               'entry_handled': [True] * 3, 'none_super': ns, 'malformed': ['none-super', ns], 'timeout': 5}
     rnd = random.Random(seed + 24)
     for k in range(300 if tier == 'quick' else 10000):
         sc = charts.gen_scenario(rnd, n=rnd.randint(2, 7), nevents=rnd.randint(2, 6))
